@@ -134,9 +134,9 @@ Open(c, k, n) == [op |-> "open", c |-> c, tr |-> k.tr, n |-> n]
 Snd(c, k)     == [op |-> "send", c |-> c, cls |-> k.cls]
 Fin(c)        == [op |-> "finish", c |-> c]
 
-\* class pairs: quick = every class with itself, its successor and the class 7 further on; thorough = all pairs
+\* class pairs: quick = every class with itself and with the class 7 further on; thorough = all pairs
 NF == Len(FastClasses)
-ConcPairs == {<<i, j>> \in (1..NF) \X (1..NF) : Tier # "quick" \/ ((j - i + NF) % NF) \in {0, 1, 7}}
+ConcPairs == {<<i, j>> \in (1..NF) \X (1..NF) : Tier # "quick" \/ ((j - i + NF) % NF) \in {0, 7}}
 
 \* ---- slow / flood ------------------------------------------------------------------
 SlowPrograms ==
